@@ -168,6 +168,8 @@ def run_conformance():
 
 
 def run_property(pid, meta, jobs, tier, seed, extra_conformance=None, needs_model=True):
+    os.environ['VERIF_TIER'] = tier
+    os.environ['VERIF_SEED'] = str(seed)
     """
     meta: dict(level, functions, files, bounds, assumptions, outside, trusted_base)
     jobs: list of Job
